@@ -36,6 +36,12 @@ class Prop(BaseProp):
         o = c.fr.outcome
         res.count("runs")
         res.count("listings_observed", len(c.fr.scandir_log))
+        if getattr(c, "extra_input", None):
+            res.count("runs_with_second_input")
+            if c.extra_page_expected is False:
+                res.count("second_input_excluded_by_pattern")
+                res.nontrivial = True
+        res.see("input_spelling", "absolute" if os.path.isabs(c.argv[0]) else "relative")
         if not o.ok:
             res.violate(o.crash_class() or f"exit:{o.exit_code}", f"{str(o.exc)[:200]}", wit)
             return
